@@ -55,16 +55,23 @@ def build(tier, repo):
     r2 = chk.rule("C12-R2", "G-block and A-block assembly are the same code up to renaming; linear indices use the allocated row count",
                   "coefficients land in the rows/columns of their own constraint and variable")
     loops = [s for s in imf.body if isinstance(s, ast.For)]
-    gl = [s for s in loops if "G[islc[" in ast.unparse(s)]
-    al = [s for s in loops if "A[eslc[" in ast.unparse(s)]
+
+    def _stores_into(loop, name):
+        return any(isinstance(x, ast.Subscript) and isinstance(x.ctx, ast.Store) and isinstance(x.value, ast.Name) and x.value.id == name
+                   for x in ast.walk(loop))
+    gl = [s for s in loops if _stores_into(s, "G") and _stores_into(s, "h")]
+    al = [s for s in loops if _stores_into(s, "A") and _stores_into(s, "b")]
     if len(gl) != 1 or len(al) != 1:
         raise AnalysisError("_inmatrixform: G/A assembly loops not found (%d, %d)" % (len(gl), len(al)))
     gt = " ".join(ast.unparse(gl[0]).split())
     at = " ".join(ast.unparse(al[0]).split())
     mp = {"G": "A", "islc": "eslc", "m": "p", "h": "b", "i": "e", "equalities": "islc"}
-    g2a = _rename(gt, mp)
-    if g2a == at.replace("for e in equalities", "for e in eslc"):
-        r2.ok("_inmatrixform:G-loop ~ A-loop", m.where(gl[0], imf), "identical up to G,islc,m,h,i <-> A,eslc,p,b,e")
+    # alpha-equivalence: the two loops unify under a consistent renaming of names that extends the
+    # role mapping G->A, h->b, m->p (locals may be called anything); the iterables may differ
+    amap = {"G": "A", "h": "b", "m": "p", "islc": "eslc"}
+    iso = _alpha_equal(gl[0].body, al[0].body, amap, {v: k for k, v in amap.items()}) and _alpha_equal(gl[0].target, al[0].target, amap, {v: k for k, v in amap.items()})
+    if iso:
+        r2.ok("_inmatrixform:G-loop ~ A-loop", m.where(gl[0], imf), "identical up to a renaming extending G,h,m,islc -> A,b,p,eslc")
     else:
         # find the first differing statement
         gs = [" ".join(ast.unparse(x).split()) for x in ast.walk(gl[0]) if isinstance(x, ast.Assign)]
@@ -137,6 +144,19 @@ def build(tier, repo):
         r4.violation("solve:back-substitution through vmap and mmap", m.where(solve, solve), "values/multipliers of the original problem are not recovered from the LP",
                      "v.value = f.value() for vmap; c.multiplier.value = f.value() for mmap", "absent")
 
+    # results are written back whatever the solver returned (None propagates for infeasible / unbounded problems)
+    for a_ in [x for x in ast.walk(solve) if isinstance(x, ast.Assign) and isinstance(x.targets[0], ast.Attribute)
+               and x.targets[0].attr in ("value", "status")]:
+        conds = pf.path_condition(a_, cross_loops=True)
+        dep = [repr(c_) for c_ in conds if "sol[" in repr(c_)]
+        key = "solve:%s written whatever the solver returned" % pf.norm_expr(a_.targets[0])
+        if dep:
+            r4.violation(key, m.where(a_, solve),
+                         "`%s` is only set when %s: for an infeasible or unbounded problem the values / multipliers of an earlier solve stay in place "
+                         "instead of becoming None" % (pf.norm_expr(a_), dep[0]), "unconditional write-back", dep)
+        else:
+            r4.ok(key, m.where(a_, solve))
+
     r5 = chk.rule("C12-R5", "every recursive _aslinearineq result is fully consumed", "no auxiliary constraint or variable of the epigraph expansion is lost")
     for q in ("constraint._aslinearineq", "op._inmatrixform"):
         fn = w.func("modeling", q)
@@ -165,3 +185,26 @@ def build(tier, repo):
                   "the LP formed is the one for the problem written (broadcast terms scaled in sum)")
     mr.duality_rule(r6, w)
     return chk
+
+
+def _alpha_equal(a, b, fwd, bwd):
+    """structural equality of two ast fragments under a consistent bijective renaming of Names
+    (fwd: left -> right, bwd: right -> left; both extended as names are met)"""
+    if isinstance(a, list) and isinstance(b, list):
+        return len(a) == len(b) and all(_alpha_equal(x, y, fwd, bwd) for x, y in zip(a, b))
+    if type(a) is not type(b):
+        return False
+    if isinstance(a, ast.Name):
+        if a.id in fwd or b.id in bwd:
+            return fwd.get(a.id) == b.id and bwd.get(b.id) == a.id
+        fwd[a.id] = b.id
+        bwd[b.id] = a.id
+        return True
+    if isinstance(a, ast.AST):
+        for f in a._fields:
+            if f in ("ctx", "lineno", "col_offset", "end_lineno", "end_col_offset", "type_comment"):
+                continue
+            if not _alpha_equal(getattr(a, f, None), getattr(b, f, None), fwd, bwd):
+                return False
+        return True
+    return a == b
